@@ -18,6 +18,7 @@ import (
 //
 // DirectUDPClient implements [zerocopy.UDPClient].
 type DirectUDPClient struct {
+	network string
 	info    zerocopy.UDPClientSessionInfo
 	session zerocopy.UDPClientSession
 }
@@ -25,6 +26,7 @@ type DirectUDPClient struct {
 // NewDirectUDPClient creates a new UDP client that makes no changes to the packets.
 func NewDirectUDPClient(name, network string, mtu int, listenConfig conn.ListenConfig) *DirectUDPClient {
 	return &DirectUDPClient{
+		network: network,
 		info: zerocopy.UDPClientSessionInfo{
 			Name:         name,
 			MTU:          mtu,
@@ -48,7 +50,10 @@ func (c *DirectUDPClient) Info() zerocopy.UDPClientInfo {
 
 // NewSession implements [zerocopy.UDPClient.NewSession].
 func (c *DirectUDPClient) NewSession(ctx context.Context) (zerocopy.UDPClientSessionInfo, zerocopy.UDPClientSession, error) {
-	return c.info, c.session, nil
+	// The packer caches the last resolved domain target, so it must not be shared between sessions.
+	session := c.session
+	session.Packer = NewDirectPacketClientPacker(c.network, c.info.MTU)
+	return c.info, session, nil
 }
 
 // ShadowsocksNoneUDPClient is a Shadowsocks none UDP client.
